@@ -546,7 +546,115 @@ def c06(ctx):
                         "the blank-node-to-quads map holds each quad once per blank node (set reading of step 2.1, as in the reference implementation)"]
 
 
+def show_pattern(p):
+    o = p["op"]
+
+    def pos(x):
+        return "?" + x["var"] if "var" in x else "_:" + x["bn"] if "bn" in x else show_term(x["term"])
+
+    def ex(e):
+        o = e["op"]
+        if o == "var": return "?" + e["name"]
+        if o == "const": return show_term(e["term"])
+        if o == "bound": return "BOUND(?%s)" % e["name"]
+        if o in ("isiri", "not"): return "%s(%s)" % (o, ex(e["a"]))
+        return "(%s %s %s)" % (ex(e["a"]), {"or": "||", "and": "&&", "eq": "=", "lt": "<"}.get(o, o), ex(e["b"]))
+    if o == "bgp": return "{ " + " . ".join(" ".join(pos(x) for x in tp) for tp in p["tps"]) + " }"
+    if o == "union": return "{ %s UNION %s }" % (show_pattern(p["l"]), show_pattern(p["r"]))
+    if o == "graphc": return "GRAPH %s %s" % (show_term(p["g"]), show_pattern(p["inner"]))
+    if o == "graphv": return "GRAPH ?%s %s" % (p["v"], show_pattern(p["inner"]))
+    if o == "filter": return "FILTER[%s] %s" % (ex(p["e"]), show_pattern(p["inner"]))
+    if o == "extend": return "BIND[%s AS ?%s] %s" % (ex(p["e"]), p["v"], show_pattern(p["inner"]))
+    if o == "distinct": return "DISTINCT %s" % show_pattern(p["inner"])
+    if o == "project": return "PROJECT%s %s" % (p["vars"], show_pattern(p["inner"]))
+    if o == "slice": return "SLICE(%s,%s) %s" % (p["start"], p["len"], show_pattern(p["inner"]))
+    return o
+
+
+def ops_of(p, acc):
+    acc.add(p["op"])
+    for k in ("inner", "l", "r"):
+        if k in p:
+            ops_of(p[k], acc)
+    return acc
+
+
+def c13(ctx):
+    binary = build()
+    mc = Bg(lambda: model_check(ctx, "MC_Sparql", workers=2, timeout=600))
+    tr = os.path.join(ctx.traces, "sparql.ndjson")
+    n = 6000 if ctx.quick() else 120000
+    sv(binary, ["sparql", "--mode", "c13", "--n", n, "--seed", ctx.seed, "--out", tr], ctx=ctx)
+    trace = read_trace(tr)
+    mism = trace_check(ctx, "Trace_Sparql", tr, timeout=6000)
+    bad = set()
+    for line, fields in mism:
+        e = trace[line - 1]
+        bad.add(line)
+        code = fields[0]
+        if e["ev"] == "Query":
+            ops = sorted(ops_of(e["p"], set()))
+            key = "%s/%s" % (code, "+".join(ops))
+            detail = "%s: %s %s over { %s } on %s -> %s vars=%s rows=%s" % (code, "ASK" if e["ask"] else "SELECT", show_pattern(e["p"]), show_quads(e["d"]), e["container"], e["res"]["k"], e["res"]["vars"],
+                                                                               [[show_term(c) if c.get("k") != "unbound" else "-" for c in r] for r in e["res"]["rows"]][:6])
+        elif e["ev"] == "Unsupported":
+            key, detail = "unsupported-answered/" + e["what"], "operator %s is not supported but the engine answered %s" % (e["what"], e["res"]["k"])
+        else:
+            key, detail = "panic", "panic: %s in %s" % (e.get("msg"), show_pattern(e["p"]) if isinstance(e.get("p"), dict) else e.get("p"))
+        ctx.violations.append({"key": key, "detail": detail, "event": e, "trace": tr, "line": line})
+    ctx.traces_validated += len(trace) - len(bad)
+    for e in trace:
+        if e["ev"] == "Query" and (e["res"]["rows"] or e["res"]["b"]):
+            ctx.distinct.add(h([e["d"], e["p"]]))
+    ctx.samples += [{"query": show_pattern(e["p"]), "data": show_quads(e["d"]), "rows": len(e["res"]["rows"])} for e in trace[10:400:131] if e["ev"] == "Query"]
+    mc.join()
+    ctx.rule = ("Sparql.tla: SPARQL 1.1 algebra of the supported fragment (BGP with repeated variables / blank-node placeholders, UNION, GRAPH <g> / ?g as a join, FILTER with effective boolean value and the error truth tables, "
+                "BIND, DISTINCT, projection, outermost OFFSET/LIMIT as a sub-bag of the right size, ASK), three-valued expressions (= < && || ! BOUND isIRI). %d random (dataset, query) pairs: datasets of <= 6 quads over a default and two named "
+                "graphs sharing triples, literals of all value classes; queries of depth <= 3 built DIRECTLY as spargebra algebra, run on Vec/FastDataset/LightDataset; bags of rows over the in-scope variables compared by TLC; "
+                "27 unsupported constructs must answer NotImplemented. distinct = (dataset, query) pairs with a non-empty answer" % n)
+    ctx.assumptions += ["SUBSTR/STRLEN/arithmetic and quoted-triple patterns are not yet in the modelled expression fragment"]
+
+
+def c14(ctx):
+    binary = build()
+    mc = Bg(lambda: model_check(ctx, "MC_OrderBy", workers=2, timeout=600))
+    tr = os.path.join(ctx.traces, "orderby.ndjson")
+    n = 1200 if ctx.quick() else 20000
+    sv(binary, ["sparql", "--mode", "c14", "--n", n, "--seed", ctx.seed, "--out", tr], ctx=ctx)
+    trace = read_trace(tr)
+    mism = trace_check(ctx, "Trace_OrderBy", tr, timeout=6000)
+    bad = set()
+
+    def st(t):
+        return "-" if t.get("k") == "unbound" else show_term(t).replace("http://www.w3.org/2001/XMLSchema#", "xsd:")
+    for line, fields in mism:
+        e = trace[line - 1]
+        bad.add(line)
+        code, idx = fields[0], int(fields[1]) if len(fields) > 1 else 0
+        if e["ev"] == "OrderBy":
+            key = "%s/%s" % (code, "+".join("DESC" if k["desc"] else "ASC" for k in e["keys"]))
+            out = e["outs"][idx - 1] if idx else (e["outs"][0] if e["outs"] else [])
+            detail = "%s keys=%s output=%s %s" % (code, e["keys"], [[st(c) for c in r] for r in out][:8], e["msg"])
+        else:
+            key, detail = "panic", "panic: %s" % e.get("msg")
+        ctx.violations.append({"key": key, "detail": detail, "event": e, "trace": tr, "line": line})
+    ctx.traces_validated += len(trace) - len(bad)
+    runs = 0
+    for e in trace:
+        if e["ev"] == "OrderBy":
+            ctx.distinct.add(h([e["rows"], e["keys"]]))
+            runs += len(e["outs"])
+    ctx.evaluations = runs
+    ctx.samples += [{"keys": e["keys"], "rows": [[st(c) for c in r] for r in e["rows"]], "first_output": [[st(c) for c in r] for r in e["outs"][0]]} for e in trace[3:5] if e["ev"] == "OrderBy" and e["outs"]]
+    mc.join()
+    ctx.rule = ("%d multisets: 2-4 rows (every permutation of the input rows is run) or 30-90 rows (4 random permutations), values from a 39-value universe (every numeric XSD type incl. derived integer types with facets, NaN, +-INF, -0.0, "
+                "a 21-digit decimal, ill-typed literals, unknown datatype, plain/tagged strings, booleans, dateTimes, IRIs, blank nodes, unbound), one or two ASC/DESC keys. TLC checks permutation, no inversion of a pair that SPARQL's '<' "
+                "or the kind rank orders (Xsd.tla exact decimal arithmetic), later keys breaking ties of same terms, and that ONE total preorder explains all outputs of a batch. evaluations = ORDER BY runs" % n)
+
+
 FAMILIES = {
+    "C13": c13,
+    "C14": c14,
     "C05": c05,
     "C06": c06,
     "C03": c03,
